@@ -445,6 +445,20 @@ func c16Run(t *testing.T, c *evid.Collector) {
 			c.Case(evid.FP("cross-servers"), true, func() interface{} { return cs }, "check:cross-servers", "src:fixed")
 			report(c, "cross-servers", c16CrossServers(), cs)
 		}
+		// keys spelled like the endpoints servers keep for themselves: in virtual-host style they are
+		// the whole request path
+		var svc []lreq
+		for _, key := range []string{"_health", "health", "healthz", "livez", "readyz", "metrics", "_status", "status", "ping", "favicon.ico", "robots.txt", "index.html", ".well-known/x", "minio/health/live", "debug/pprof", "api", "v1"} {
+			svc = append(svc, lreq{Method: "PUT", Bucket: "bk0", Key: key, Body: []byte("object " + key), Family: "putObject"}, lreq{Method: "GET", Bucket: "bk0", Key: key, Family: "getObject"},
+				lreq{Method: "HEAD", Bucket: "bk0", Key: key, Family: "headObject"}, lreq{Method: "GET", Bucket: "bk1", Key: key, Family: "getObject"}, lreq{Method: "DELETE", Bucket: "bk0", Key: key, Family: "deleteObject"})
+		}
+		for _, m := range c16Modes {
+			cs := m
+			cs.Setup = setup
+			cs.Requests = svc
+			ds, sent := c16Exec(cs)
+			record("twin", cs, ds, sent, "fixed-service-looking-keys")
+		}
 		for _, m := range c16Modes {
 			cs := m
 			cs.Setup = setup
